@@ -300,7 +300,7 @@ class Pattern(Interp):
                     self.declass.add((ctx.qname, norm(n)[:120]))
                     return PV(PAT, s.prov)
                 if s.lvl == ARITH and s.pw is not None:
-                    ok, wit = signs.pattern_only(s.pw[2])
+                    ok, wit = signs.pattern_only(s.pw[2], getattr(self, 'pairs', None))
                     if ok:
                         self.declass.add((ctx.qname, norm(n)[:120]))
                         # provenance created by the elementwise expression itself is discharged
@@ -311,7 +311,7 @@ class Pattern(Interp):
             if isinstance(b, PV) and b.lvl == CLEAN and b.const is not NOCONST and b.const is not None and b.const == 0 and not isinstance(b.const, bool):
                 s = flat(a) if not isinstance(a, PV) else a
                 if s.pw is not None and isinstance(s.pw[2], tuple) and s.pw[2][0] == "abs":
-                    ok, wit = signs.pattern_only(s.pw[2])
+                    ok, wit = signs.pattern_only(s.pw[2], getattr(self, 'pairs', None))
                     if ok:
                         self.declass.add((ctx.qname, norm(n)[:120]))
                         return PV(PAT, frozenset(p for p in s.prov if not self._within(p, n, ctx)))
@@ -553,6 +553,10 @@ class Pattern(Interp):
                     and len(data) == 1 and isinstance(data[0], PV) and data[0].lvl == RAW:
                 self.declass.add((ctx.qname, norm(n)[:120]))
                 return PV(PAT, data[0].prov)            # np.asarray(x, dtype=bool) is x != 0
+            if d in ("numpy.array", "numpy.asarray", "numpy.asanyarray") and dt is not None and len(data) == 1 and isinstance(data[0], PV) and data[0].lvl == RAW:
+                tgt = (dt.dotted.split(".")[-1] if isinstance(dt, ExtRef) else str(getattr(dt, "const", "") or "")).rstrip("_")
+                if not (tgt.startswith("float") or tgt in ("double", "complex", "object", "longdouble", "single", "")):
+                    return self.arith(n, ctx, data[0])       # integer truncation is value sensitive (0.5 -> 0), as for .astype(int)
             if len(data) == 1 and isinstance(data[0], PV) and d in ("numpy.array", "numpy.asarray", "numpy.atleast_2d",
                                                                      "numpy.copy", "copy.deepcopy", "copy.copy"):
                 a = data[0]
